@@ -943,8 +943,17 @@ package fzf
 //@   invariant pm == 2 && 0 <= pn && pn <= 255 ==> (pt == 1 ? state.fg : state.bg) == pn
 // (not specified: how the three parameters of the 24-bit form are packed into the colour value - bitwise or of
 //  non-constant operands is uninterpreted in the verifier; only which colour the group targets is)
-//@ func ansiState.equals trusted
-//@ func ansiState.colored trusted
+// A state is "coloured" when any component differs from the default (colour 0 - black - is a colour); two states are
+// equal when all five components are, the hyperlink by identity; nil stands for the default state.
+//@ func ansiState.colored
+//@ property C11
+//@ requires s != nil
+//@ ensures result == (s.fg != -1 || s.bg != -1 || s.attr > 0 || s.lbg >= 0 || s.url != nil)
+//@ func ansiState.equals
+//@ property C11
+//@ requires s != nil
+//@ ensures t == nil ==> result == !(s.fg != -1 || s.bg != -1 || s.attr > 0 || s.lbg >= 0 || s.url != nil)
+//@ ensures t != nil ==> result == (s.fg == t.fg && s.bg == t.bg && s.attr == t.attr && s.lbg == t.lbg && s.url == t.url)
 //@ func extractColor
 //@ property C11
 //@ mathint int32 -- character offsets within one input line are assumed to fit in 31 bits
@@ -958,6 +967,9 @@ package fzf
 //@ ghost nic int
 //@ ghost @"idx += end" nseq = nseq + 1
 //@ ghost @"newState := interpretCode(" nic = nic + 1
+// (when the state changes, the span that was open ends at the characters kept so far - also when no text came
+//  between this sequence and the one before it)
+//@ assert @"if newState.colored() {" state != nil ==> offsets[len(offsets)-1].offset[1] == runeCount
 // (that all offsets are ordered and within the text was proved too, but one loop obligation needed 8-10 s of
 //  solver time - too close to the limit to be claimed - so the clause is not part of the contract)
 //@ loop 1
